@@ -12,19 +12,6 @@ import Driver.C20
 namespace Drv.HtsOp
 open Drv Jb Jb.Hts
 
-def unesc (s : String) : List Nat :=
-  if s == "%" then [] else
-  let rec go : List Char → List Nat
-    | '%' :: a :: b :: rest =>
-      match hexDigit a, hexDigit b with
-      | some x, some y => (x * 16 + y) :: go rest
-      | _, _ => 37 :: go (a :: b :: rest)
-    | c :: rest => (String.singleton c).toUTF8.toList.map (·.toNat) ++ go rest
-    | [] => []
-  go s.toList
-
-def unescStr (s : String) : String := String.ofList ((unesc s).map Char.ofNat)
-
 def widen (b : UInt32) : Float := (Float32.ofBits b).toFloat
 
 structure Entry where
